@@ -6,6 +6,7 @@ Not part of any proof; imports only the model (no Mathlib) so it links as an exe
 -/
 import Lean.Data.Json
 import Dippy.Model.Analyzer
+import Dippy.Model.Config
 import Dippy.Generated.Tables
 
 open Lean Dippy
@@ -221,11 +222,90 @@ def stdHelp : HelpTables :=
 def decisionJson (d : Decision) : Json :=
   Json.mkObj [("action", d.action.toString), ("reason", d.reason)]
 
+
+def toAction (s : String) : Action :=
+  match s with
+  | "allow" => .allow
+  | "deny" => .deny
+  | _ => .ask
+
+def toRule (j : Json) : Rule :=
+  { decision := toAction (strD j "decision" "ask"), pattern := strD j "pattern" "",
+    message := optStr j "message", exact := boolD j "exact" false }
+
+def toAfterRule (j : Json) : AfterRule :=
+  { pattern := strD j "pattern" "", message := optStr j "message" }
+
+def toConfig (j : Json) : Config :=
+  { rules := (arrD j "rules").toList.map toRule
+    redirectRules := (arrD j "redirect_rules").toList.map toRule
+    afterRules := (arrD j "after_rules").toList.map toAfterRule
+    mcpRules := (arrD j "mcp_rules").toList.map toRule
+    afterMcpRules := (arrD j "after_mcp_rules").toList.map toAfterRule
+    aliases := (arrD j "aliases").toList.filterMap fun e =>
+      match e.getArr? with
+      | .ok pr => some (((pr[0]!).getStr?).toOption.getD "", ((pr[1]!).getStr?).toOption.getD "")
+      | _ => none
+    default := strD j "default" "ask"
+    log := optStr j "log"
+    logFull := boolD j "log_full" false }
+
+def optStrJson : Option String → Json
+  | some s => Json.str s
+  | none => Json.null
+
+def ruleJson (r : Rule) : Json :=
+  Json.mkObj [("decision", r.decision.toString), ("pattern", r.pattern), ("message", optStrJson r.message), ("exact", r.exact)]
+
+def afterRuleJson (r : AfterRule) : Json :=
+  Json.mkObj [("pattern", r.pattern), ("message", optStrJson r.message)]
+
+def configJson (c : Config) : Json :=
+  Json.mkObj [
+    ("rules", Json.arr (c.rules.map ruleJson).toArray),
+    ("redirect_rules", Json.arr (c.redirectRules.map ruleJson).toArray),
+    ("after_rules", Json.arr (c.afterRules.map afterRuleJson).toArray),
+    ("mcp_rules", Json.arr (c.mcpRules.map ruleJson).toArray),
+    ("after_mcp_rules", Json.arr (c.afterMcpRules.map afterRuleJson).toArray),
+    ("aliases", Json.arr (c.aliases.map fun kv => Json.arr #[Json.str kv.1, Json.str kv.2]).toArray),
+    ("default", c.default), ("log", optStrJson c.log), ("log_full", c.logFull)]
+
+def matchJson : Option Match → Json
+  | none => Json.null
+  | some m => Json.mkObj [("decision", m.decision.toString), ("pattern", m.pattern), ("message", optStrJson m.message)]
+
+/-- `{"home":…, "lex":true}` or `{"home":…, "resolve":[[joinedPath,result]…]}` -/
+def toPathEnv (j : Json) : PathEnv :=
+  let home := strD j "home" "/home/u"
+  if boolD j "lex" false then ⟨home, lexResolve⟩
+  else
+    let t := (arrD j "resolve").toList.filterMap fun e =>
+      match e.getArr? with
+      | .ok pr => some (((pr[0]!).getStr?).toOption.getD "", ((pr[1]!).getStr?).toOption.getD "")
+      | _ => none
+    ⟨home, fun p => match t.find? (fun e => e.1 == p) with
+      | some e => e.2
+      | none => "<oracle-miss:resolve:" ++ p ++ ">"⟩
+
+def toParseEnv (j : Json) : ParseEnv :=
+  let users := (arrD j "users").toList.filterMap fun e =>
+    match e.getArr? with
+    | .ok pr => some (((pr[0]!).getStr?).toOption.getD "", ((pr[1]!).getStr?).toOption.getD "")
+    | _ => none
+  ⟨strD j "home" "/home/u", fun u => (users.find? (·.1 == u)).map (·.2)⟩
+
+def kindName : TokKind → String
+  | .url => "url" | .variable => "variable" | .absolute => "absolute" | .home => "home"
+  | .userHome => "user_home" | .relative => "relative" | .bare => "bare"
+
 def handle (j : Json) : R Json := do
   let op ← str j "op"
   match op with
   | "analyze" =>
-    let w ← worldOfTables (j.getObjValD "world")
+    let w0 ← worldOfTables (j.getObjValD "world")
+    let w := match optObj j "config" with
+      | some c => w0.withConfig (toPathEnv (j.getObjValD "env")) (toConfig c)
+      | none => w0
     let d := analyzeStr w stdHelp (natD j "fuel" 64) (← str j "cmd") (← str j "cwd") (boolD j "remote" false)
     return decisionJson d
   | "scan" =>
@@ -238,6 +318,41 @@ def handle (j : Json) : R Json := do
     return decisionJson (combine ds)
   | "stripquotes" => return Json.str (stripQuotes (← str j "s"))
   | "strip" => return Json.str (Py.strip (← str j "s"))
+  | "fnmatch" => return Json.bool (Glob.fnmatch (← str j "name") (← str j "pat"))
+  | "globmatch" =>
+    match Glob.globMatch (← str j "text") (← str j "pat") with
+    | some b => return Json.bool b
+    | none => return Json.null
+  | "hasglob" => return Json.bool (Glob.hasGlobChars (← str j "s"))
+  | "classify_token" => return Json.str (kindName (classifyToken (← str j "t")))
+  | "expand_token" =>
+    return Json.str (expandToken (toPathEnv (j.getObjValD "env")) (← str j "t") (← str j "cwd") (boolD j "force" false))
+  | "normpath" => return Json.str (normalizePath (toPathEnv (j.getObjValD "env")) (← str j "path") (← str j "cwd"))
+  | "normredirpat" => return Json.str (normalizeRedirectPattern (toPathEnv (j.getObjValD "env")) (← str j "pattern") (← str j "cwd"))
+  | "normpattern" => return Json.str (normalizePattern (toPathEnv (j.getObjValD "env")) (← str j "pattern") (← str j "cwd"))
+  | "lexresolve" => return Json.str (lexResolve (← str j "p"))
+  | "pathjoin" => return Json.str (pathJoin (← str j "cwd") (← str j "t"))
+  | "purepath" => return Json.str (purePath (← str j "s"))
+  | "parseconfig" => return configJson (parseConfig (toParseEnv (j.getObjValD "penv")) (← str j "text"))
+  | "extractmsg" =>
+    match extractMessage (← str j "s") with
+    | .ok p m => return Json.mkObj [("pattern", p), ("message", optStrJson m)]
+    | .error => return Json.str "ValueError"
+  | "unescape" => return Json.str (String.ofList (unescapeL (← str j "s").toList))
+  | "stripanchor" =>
+    let (p, e) := stripExactAnchor (← str j "s")
+    return Json.mkObj [("pattern", p), ("exact", e)]
+  | "splitlines" => return Json.arr ((splitLines (← str j "s")).map Json.str).toArray
+  | "matchwords" =>
+    return matchJson (matchWords (toPathEnv (j.getObjValD "env")) (toConfig (j.getObjValD "config"))
+      (← strList (j.getObjValD "words")) (← str j "cwd") (boolD j "remote" false))
+  | "matchredirect" =>
+    return matchJson (matchRedirect (toPathEnv (j.getObjValD "env")) (toConfig (j.getObjValD "config")) (← str j "target") (← str j "cwd"))
+  | "matchafter" =>
+    return optStrJson (matchAfter (toPathEnv (j.getObjValD "env")) (toConfig (j.getObjValD "config")) (← strList (j.getObjValD "words")) (← str j "cwd"))
+  | "matchmcp" => return matchJson (matchMcp (toConfig (j.getObjValD "config")) (← str j "tool"))
+  | "matchaftermcp" => return optStrJson (matchAfterMcp (toConfig (j.getObjValD "config")) (← str j "tool"))
+  | "merge" => return configJson (mergeConfigs (toConfig (j.getObjValD "base")) (toConfig (j.getObjValD "overlay")))
   | "ping" => return Json.str "pong"
   | other => throw s!"unknown op {other}"
 
